@@ -1459,18 +1459,17 @@ func (w *WorkItem) Decode(d *Decoder) error {
 		return err
 	}
 
-	if length == 0 {
-		return nil
-	}
-
-	importSegments := make([]ImportSpec, length)
-	for i := uint64(0); i < length; i++ {
-		if err = importSegments[i].Decode(d); err != nil {
-			return err
+	// an empty import-segment list is still followed by the extrinsic list
+	if length != 0 {
+		importSegments := make([]ImportSpec, length)
+		for i := uint64(0); i < length; i++ {
+			if err = importSegments[i].Decode(d); err != nil {
+				return err
+			}
 		}
-	}
 
-	w.ImportSegments = importSegments
+		w.ImportSegments = importSegments
+	}
 
 	length, err = d.DecodeLength()
 	if err != nil {
